@@ -409,6 +409,213 @@ theorem ice_iff_after_nucleation (p : Params ℝ) (tk : ℝ) (isCN anyS : Bool) 
     refine ⟨fun _ => ?_, fun h => absurd h hσ, fun h => absurd h hσ⟩
     rw [hv'']; exact ⟨rfl, rfl⟩
 
+/-- `t[k+1] = t[k] + Δt` over the reals -/
+theorem timeAt_succ (dt : ℝ) (k : Nat) : timeAt dt (k + 1) = timeAt dt k + dt := by
+  simp only [timeAt, ofNat'_real]; push_cast; ring
+
+/-- all vials of all columns of a trajectory are admissible -/
+def TrajAdm (ph : Phys) (p : Params ℝ) (kCN k : Nat) (l : List ℝ) (s : State ℝ) : Prop :=
+  ∀ (j : Nat) (sj : State ℝ), (trajList p kCN k l s)[j]? = some sj →
+    ∀ (i : Nat) (v : Vial ℝ), sj.vials[i]? = some v → Adm ph v
+
+theorem TrajAdm.tail {ph : Phys} {p : Params ℝ} {kCN k : Nat} {T : ℝ} {r : List ℝ} {s : State ℝ}
+    (h : TrajAdm ph p kCN k (T :: r) s) : TrajAdm ph p kCN (k + 1) r (step p kCN k T s) := by
+  intro j sj hj
+  exact h (j + 1) sj (by simpa [trajList] using hj)
+
+theorem step_getElem? (p : Params ℝ) (kCN k : Nat) (T : ℝ) (s : State ℝ) (i : Nat) (v : Vial ℝ)
+    (hv : s.vials[i]? = some v) :
+    (step p kCN k T s).vials[i]? = some (vialStep p (k == kCN) k T s i v) := by
+  simp only [step]
+  rw [stepCN_getElem?, hv]; rfl
+
+/-- a recorded nucleation time is never changed by later steps -/
+theorem tNuc_persist {ph : Phys} (p : Params ℝ) (kCN : Nat) (l : List ℝ) (k : Nat) (s : State ℝ)
+    (hadm : TrajAdm ph p kCN k l s) (i : Nat) (v : Vial ℝ) (t : ℝ) (hv : s.vials[i]? = some v)
+    (ht : v.tNuc = some t) :
+    ∃ vf, (finalState p kCN k l s).vials[i]? = some vf ∧ vf.tNuc = some t := by
+  induction l generalizing k s v with
+  | nil => exact ⟨v, by simpa [finalState] using hv, ht⟩
+  | cons T r ih =>
+    have hA : Adm ph v := hadm 0 s (by simp [trajList]) i v hv
+    have hσ : v.sigma ≠ 0 := by
+      intro h0
+      have := adm_liquid hA h0
+      rw [ht] at this; exact absurd this (by simp)
+    have hkeep := (ice_iff_after_nucleation p (timeAt p.dt k) (k == kCN) (anySolid s) v
+      (heatFlow p (temps s) T T i) (p.kb.getD i 0) ((diceOf p k T s).getD i 0)).1 hσ
+    have hv' := step_getElem? p kCN k T s i v hv
+    have ht' : (vialStep p (k == kCN) k T s i v).tNuc = some t := by
+      simp only [vialStep, zero_real]
+      rw [hkeep.1, ht]
+    simp only [finalState]
+    exact ih (k + 1) (step p kCN k T s) hadm.tail _ hv' ht'
+
+/-- a vial without a recorded nucleation at column `k` either never nucleates or its recorded
+nucleation time is later than `t[k]` -/
+theorem tNuc_fresh {ph : Phys} (p : Params ℝ) (hdt : 0 < p.dt) (kCN : Nat) (l : List ℝ) (k : Nat)
+    (s : State ℝ) (hadm : TrajAdm ph p kCN k l s) (i : Nat) (v : Vial ℝ) (hv : s.vials[i]? = some v)
+    (ht : v.tNuc = none) :
+    ∃ vf, (finalState p kCN k l s).vials[i]? = some vf ∧
+      (vf.tNuc = none ∨ ∃ t, vf.tNuc = some t ∧ timeAt p.dt k < t) := by
+  induction l generalizing k s v with
+  | nil => exact ⟨v, by simpa [finalState] using hv, Or.inl ht⟩
+  | cons T r ih =>
+    have hA : Adm ph v := hadm 0 s (by simp [trajList]) i v hv
+    have hσ : v.sigma = 0 := by
+      by_contra h0
+      exact (adm_solid hA h0).2.2.2 ht
+    have hfacts := ice_iff_after_nucleation p (timeAt p.dt k) (k == kCN) (anySolid s) v
+      (heatFlow p (temps s) T T i) (p.kb.getD i 0) ((diceOf p k T s).getD i 0)
+    have hv' := step_getElem? p kCN k T s i v hv
+    simp only [finalState]
+    cases hn : nucleates p (k == kCN) (vialMid p (timeAt p.dt k) (anySolid s) v
+        (heatFlow p (temps s) T T i)) (p.kb.getD i 0) ((diceOf p k T s).getD i 0) with
+    | false =>
+      have hk := hfacts.2.1 hσ hn
+      have ht' : (vialStep p (k == kCN) k T s i v).tNuc = none := by
+        simp only [vialStep, zero_real]
+        rw [hk.2, ht]
+      obtain ⟨vf, h1, h2⟩ := ih (k + 1) (step p kCN k T s) hadm.tail _ hv' ht'
+      refine ⟨vf, h1, ?_⟩
+      rcases h2 with h2 | ⟨t, h2, h3⟩
+      · exact Or.inl h2
+      · refine Or.inr ⟨t, h2, ?_⟩
+        rw [timeAt_succ] at h3; linarith
+    | true =>
+      have hk := hfacts.2.2 hσ hn
+      have ht' : (vialStep p (k == kCN) k T s i v).tNuc = some (timeAt p.dt k + p.dt) := by
+        simp only [vialStep, zero_real]
+        exact hk
+      obtain ⟨vf, h1, h2⟩ := tNuc_persist p kCN r (k + 1) (step p kCN k T s) hadm.tail i _ _ hv' ht'
+      exact ⟨vf, h1, Or.inr ⟨_, h2, by linarith⟩⟩
+
+/-- one step keeps "recorded nucleation no later than the current time" -/
+theorem tNuc_le_time (p : Params ℝ) (hdt : 0 < p.dt) (tk : ℝ) (isCN anyS : Bool) (v : Vial ℝ)
+    (q kb die : ℝ) (h : ∀ t, v.tNuc = some t → t ≤ tk) :
+    ∀ t, (vialFinal p tk isCN (vialMid p tk anyS v q) kb die).tNuc = some t → t ≤ tk + p.dt := by
+  intro t ht
+  have hf := ice_iff_after_nucleation p tk isCN anyS v q kb die
+  simp only at hf
+  by_cases hσ : v.sigma = 0
+  · cases hn : nucleates p isCN (vialMid p tk anyS v q) kb die with
+    | false =>
+      rw [(hf.2.1 hσ hn).2] at ht
+      have := h t ht; linarith
+    | true =>
+      rw [hf.2.2 hσ hn] at ht
+      simp only [Option.some.injEq] at ht
+      linarith
+  · rw [(hf.1 hσ).1] at ht
+    have := h t ht; linarith
+
+/-- along a trajectory every recorded nucleation time is at most the time of the column -/
+theorem traj_time (p : Params ℝ) (hdt : 0 < p.dt) (kCN : Nat) (l : List ℝ) (k : Nat) (s : State ℝ)
+    (h0 : ∀ (i : Nat) (v : Vial ℝ), s.vials[i]? = some v → ∀ t, v.tNuc = some t → t ≤ timeAt p.dt k) :
+    ∀ (j : Nat) (sj : State ℝ), (trajList p kCN k l s)[j]? = some sj →
+      ∀ (i : Nat) (v : Vial ℝ), sj.vials[i]? = some v → ∀ t, v.tNuc = some t → t ≤ timeAt p.dt (k + j) := by
+  induction l generalizing k s with
+  | nil => intro j sj h; simp [trajList] at h
+  | cons T r ih =>
+    intro j sj hj
+    cases j with
+    | zero =>
+      simp only [trajList, List.getElem?_cons_zero, Option.some.injEq] at hj
+      subst hj; simpa using h0
+    | succ j' =>
+      simp only [trajList, List.getElem?_cons_succ] at hj
+      have h1 : ∀ (i : Nat) (v : Vial ℝ), (step p kCN k T s).vials[i]? = some v →
+          ∀ t, v.tNuc = some t → t ≤ timeAt p.dt (k + 1) := by
+        intro i v' hv' t ht
+        simp only [step] at hv'
+        rw [stepCN_getElem?] at hv'
+        cases hvi : s.vials[i]? with
+        | none => rw [hvi] at hv'; simp at hv'
+        | some v =>
+          rw [hvi] at hv'
+          simp only [Option.map_some, Option.some.injEq] at hv'
+          rw [timeAt_succ]
+          have := tNuc_le_time p hdt (timeAt p.dt k) (k == kCN) (anySolid s) v
+            (heatFlow p (temps s) T T i) (p.kb.getD i 0) ((diceOf p k T s).getD i 0) (h0 i v hvi) t
+          apply this
+          rw [← hv'] at ht
+          simpa [vialStep] using ht
+      have := ih (k + 1) (step p kCN k T s) h1 j' sj hj
+      have e : k + (j' + 1) = k + 1 + j' := by omega
+      rw [e]; exact this
+
+/-- **a vial contains ice exactly from its recorded nucleation onwards** (run level, under the
+hypotheses of `run_admissible_partial` through `hadm`): in column `j`, vial `i` contains ice iff
+the nucleation time reported in the final statistics exists and is at most `t[j]`. -/
+theorem ice_iff_recorded {ph : Phys} (inp : Inputs ℝ) (kCN : Nat) (hdt : 0 < inp.p.dt)
+    (hadm : TrajAdm ph inp.p kCN 0 (profile inp.oc inp.p.dt) (init inp))
+    (j : Nat) (sj : State ℝ) (hj : (runWith inp kCN).traj[j]? = some sj) (i : Nat) (v : Vial ℝ)
+    (hv : sj.vials[i]? = some v) :
+    ∃ vf, (runWith inp kCN).final.vials[i]? = some vf ∧
+      (v.sigma ≠ 0 ↔ ∃ t, vf.tNuc = some t ∧ t ≤ timeAt inp.p.dt j) := by
+  have hr : runWith inp kCN = ⟨nTimeSteps inp, timeVec (nTimeSteps inp) inp.p.dt, kCN,
+      profile inp.oc inp.p.dt,
+      (trajList inp.p kCN 0 (profile inp.oc inp.p.dt) (init inp)).toArray,
+      finalState inp.p kCN 0 (profile inp.oc inp.p.dt) (init inp)⟩ := by
+    simp only [runWith, loop_eq]
+    simp
+  rw [hr] at hj ⊢
+  simp only [List.getElem?_toArray] at hj ⊢
+  set l := profile inp.oc inp.p.dt with hl
+  obtain ⟨hd1, hd2⟩ := trajList_drop inp.p kCN l 0 (init inp) j sj hj
+  simp only [Nat.zero_add] at hd1 hd2
+  have hadm' : TrajAdm ph inp.p kCN j (l.drop j) sj := by
+    intro j2 s2 h2
+    rw [hd1, List.getElem?_drop] at h2
+    exact hadm (j + j2) s2 h2
+  have hA : Adm ph v := hadm j sj hj i v hv
+  have htime := traj_time inp.p hdt kCN l 0 (init inp) (by
+    intro i v h t ht
+    simp only [init, Array.getElem?_replicate] at h
+    split at h
+    · simp only [Option.some.injEq] at h; rw [← h] at ht; simp at ht
+    · simp at h) j sj hj i v hv
+  simp only [Nat.zero_add] at htime
+  rw [← hd2]
+  by_cases hσ : v.sigma = 0
+  · have hnone := adm_liquid hA hσ
+    obtain ⟨vf, h1, h2⟩ := tNuc_fresh inp.p hdt kCN (l.drop j) j sj hadm' i v hv hnone
+    refine ⟨vf, h1, ?_⟩
+    constructor
+    · intro h; exact absurd hσ h
+    · rintro ⟨t, ht, hle⟩
+      rcases h2 with h2 | ⟨t', h2, h3⟩
+      · rw [h2] at ht; simp at ht
+      · rw [h2] at ht
+        simp only [Option.some.injEq] at ht
+        subst ht
+        linarith
+  · obtain ⟨_, _, _, hne⟩ := adm_solid hA hσ
+    obtain ⟨t, ht⟩ := Option.ne_none_iff_exists'.mp hne
+    obtain ⟨vf, h1, h2⟩ := tNuc_persist inp.p kCN (l.drop j) j sj hadm' i v t hv ht
+    exact ⟨vf, h1, ⟨fun _ => ⟨t, h2, htime t ht⟩, fun _ => hσ⟩⟩
+
+/-- `ice_iff_recorded` under the hypotheses of `run_admissible_partial` -/
+theorem run_ice_iff_recorded {ph : Phys} (inp : Inputs ℝ) (kCN : Nat) (hi : ℝ)
+    (hwf : Snow.C05.WF inp.oc inp.p.dt)
+    (st : Stable ph inp.p inp.nVials inp.oc.stop hi)
+    (hT0 : inp.oc.start ≤ inp.T0) (hT0hi : inp.T0 ≤ hi) (hstart : inp.oc.start ≤ hi)
+    (hside : ∀ (j : Nat) (sj : State ℝ) (T : ℝ), (runWith inp kCN).traj[j]? = some sj →
+      (runWith inp kCN).Tshelf[j]? = some T → SideCond ph inp.p sj T)
+    (j : Nat) (sj : State ℝ) (hj : (runWith inp kCN).traj[j]? = some sj) (i : Nat) (v : Vial ℝ)
+    (hv : sj.vials[i]? = some v) :
+    ∃ vf, (runWith inp kCN).final.vials[i]? = some vf ∧
+      (v.sigma ≠ 0 ↔ ∃ t, vf.tNuc = some t ∧ t ≤ timeAt inp.p.dt j) := by
+  have hadm : TrajAdm ph inp.p kCN 0 (profile inp.oc inp.p.dt) (init inp) := by
+    intro j2 s2 h2 i2 v2 hv2
+    have hr : (runWith inp kCN).traj
+        = (trajList inp.p kCN 0 (profile inp.oc inp.p.dt) (init inp)).toArray := by
+      simp only [runWith, loop_eq]; simp
+    have h2' : (runWith inp kCN).traj[j2]? = some s2 := by
+      rw [hr]; simpa using h2
+    exact (run_admissible_partial inp kCN hi hwf st hT0 hT0hi hstart hside j2 s2 h2' i2 v2 hv2).1
+  exact ice_iff_recorded inp kCN st.dt_pos hadm j sj hj i v hv
+
 /-- **the side condition is needed** (boundary of the theorem, not a defect reachable with real
 seeds): with `Stable`-compatible numbers, a vial holding a tiny amount of ice (`σ = 10⁻⁶`, as after
 nucleation at vanishing supercooling) that is warmed (`q = 1 W`, `Δt = 1 s`) leaves `σ > 0`. -/
